@@ -3,7 +3,7 @@
 Space: descriptions with <= 4 shell commands (file, virtual, directory, multi-output
 and phony-gate edges) x EVERY non-empty subset of commands directed to fail x
 failure kind x index k of the failing build in a 3-build history x
-{--serial, -j4} x {repair immediately, retry once unrepaired then repair};
+{--serial, -j4} x {repair immediately, retry once unrepaired then repair, repair together with an edit of every source};
 plus SIGINT to the tool while one gated command is blocked on a FIFO.
 
 Replay: C10|<family>|<mode>|<C1+C3>|<kind>|<k>|<retry>     C10i|<family>|<mode>|<gated>|<k>
@@ -228,6 +228,9 @@ def run_item(res, fam, mode, fail, kind, k, retry, verbose=False):
                                 what, ",".join(sorted(not_retried)), rc2, ",".join(names2)), spec)
             attempted |= att2
             already = (already | set(names2)) - attempted
+        if retry == 2:
+            sc.edit_all()
+            already = set()
         sc.repair(fail, kind)
         # consumers that (wrongly, already reported) executed in the failing build are up to date by now
         down = sc.desc.consumers_closure(attempted) - already
@@ -306,7 +309,9 @@ def items(tier):
                 for kind in kinds:
                     for k in (0, 1, 2):
                         for mode in ("serial", "par"):
-                            for retry in ((0, 1) if tier == "thorough" or k == 1 else (0,)):
+                            # retry 2: the repair comes together with an edit of every source, so commands that ran
+                            # successfully in the failing build have to run again as well
+                            for retry in ((0, 1, 2) if tier == "thorough" or k == 1 else ((0, 2) if kind == "exit1-after" and mode == "serial" else (0,))):
                                 out.append(("f", fam, mode, list(fail), kind, k, retry))
     for fam in fams:
         for c in shell_cmds(fam.descs[0]):
